@@ -227,14 +227,9 @@ func (wk *dWorker) opPipeline() {
 	var cands []*dCall
 	for _, c := range wk.calls {
 		if !c.released && !c.embargo && len(c.resCaps) > 0 {
-			if c.target != nil && c.target.Who == wk.mine().name {
-				// a call on a capability of my own side never touches the
-				// Conn; pipelining on its answer goes through
-				// server.queueCaller.PipelineSend, whose ReleaseArgs is not
-				// idempotent and crashes when the resolved target is an
-				// import (server/answer.go, property C12)
-				continue
-			}
+			// (answers of calls on capabilities of my own side are included:
+			// pipelining on them goes through server.queueCaller.PipelineSend
+			// and reaches the Conn when the result capability is an import)
 			cands = append(cands, c)
 		}
 	}
@@ -557,15 +552,15 @@ func runDuo(e *env, rng *common.RNG) {
 		s.conn = rpc.NewConn(t, &rpc.Options{BootstrapClient: bc, ErrorReporter: s.rep})
 		d.sides[i] = s
 	}
-	// bootstrap both ways and wait until the clients are resolved (a call
-	// through a bootstrap client that is being resolved can wedge: design
-	// candidate #12, property C11)
+	// bootstrap both ways; the workers start calling through the bootstrap
+	// clients right away, i.e. also while the Bootstrap Returns are being
+	// processed (design candidate #12 deadlocked in that window before the
+	// core fix 4d46932)
 	var boots [2]*capnp.Client
 	for i := range d.sides {
 		i := i
 		if !e.do("Bootstrap "+d.sides[i].name, func() {
 			boots[i] = d.sides[i].conn.Bootstrap(context.Background())
-			boots[i].Resolve(context.Background())
 		}) {
 			return
 		}
